@@ -4,7 +4,7 @@ use std::io::{BufRead, Write};
 use std::panic;
 
 pub enum Outcome {
-    Ok(String),
+    Ok(String, proc_macro2::TokenStream),
     Err(Vec<String>),
     Panic(String),
     Skip(String),
@@ -17,7 +17,7 @@ fn call(src: &str) -> Outcome {
         Err(e) => return Outcome::Skip(format!("syn1 parse: {}", e)),
     };
     match panic::catch_unwind(|| o2o_impl::expand::derive(&di)) {
-        Ok(Ok(ts)) => Outcome::Ok(ser::ts_string(&ts)),
+        Ok(Ok(ts)) => Outcome::Ok(ser::ts_string(&ts), ts),
         Ok(Err(e)) => Outcome::Err(e.into_iter().map(|x| x.to_string()).collect()),
         Err(p) => Outcome::Panic(payload(p)),
     }
@@ -30,7 +30,7 @@ fn call(src: &str) -> Outcome {
         Err(e) => return Outcome::Skip(format!("syn2 parse: {}", e)),
     };
     match panic::catch_unwind(|| o2o_impl::expand::derive(&di)) {
-        Ok(Ok(ts)) => Outcome::Ok(ser::ts_string(&ts)),
+        Ok(Ok(ts)) => Outcome::Ok(ser::ts_string(&ts), ts),
         Ok(Err(e)) => Outcome::Err(e.into_iter().map(|x| x.to_string()).collect()),
         Err(p) => Outcome::Panic(payload(p)),
     }
@@ -52,7 +52,7 @@ pub fn derive_str(src: &str) -> Outcome {
 
 pub fn outcome_line(o: &Outcome) -> String {
     match o {
-        Outcome::Ok(t) => format!("OK {}", t),
+        Outcome::Ok(t, _) => format!("OK {}", t),
         Outcome::Err(ms) => {
             let mut s = format!("ERR {}", ms.len());
             for m in ms {
@@ -68,7 +68,7 @@ pub fn outcome_line(o: &Outcome) -> String {
 
 /// stdin: `<id>\t<rust source of one item>` per line.
 /// stdout: `IN <id> <encoded DeriveInput>` (unless `no_in`) and `OUT <id> <outcome>`.
-pub fn main(no_in: bool, repeat: usize) {
+pub fn main(no_in: bool, repeat: usize, analyze: bool) {
     panic::set_hook(Box::new(|_| {}));
     let stdin = std::io::stdin();
     let stdout = std::io::stdout();
@@ -82,8 +82,14 @@ pub fn main(no_in: bool, repeat: usize) {
                 Err(e) => writeln!(w, "IN {} SKIP {}", id, ser::esc(&e.to_string())).unwrap(),
             }
         }
-        let first = outcome_line(&call(src));
+        let o = call(src);
+        let first = outcome_line(&o);
         writeln!(w, "OUT {} {}", id, first).unwrap();
+        if analyze {
+            if let Outcome::Ok(_, ts) = &o {
+                writeln!(w, "AN {} {}", id, crate::analyze::analyze(src, ts)).unwrap();
+            }
+        }
         for k in 1..repeat {
             let again = outcome_line(&call(src));
             if again != first {
